@@ -87,6 +87,25 @@ var ruleErrFirst = &Rule{
 									check(r.(ssa.Value), ev, depth+1)
 								}
 								continue
+							case *ssa.Call:
+								// `g(f())`, `g(v, err)`: the value and its error go into
+								// a module function together; the rule follows them
+								// there (the parameters take their places)
+								if g := x.Call.StaticCallee(); g != nil && !x.Call.IsInvoke() && inModule(g) && g.Blocks != nil {
+									vi, ei := -1, -1
+									for k, a := range x.Call.Args {
+										if a == v {
+											vi = k
+										}
+										if sameValue(a, ev) {
+											ei = k
+										}
+									}
+									if vi >= 0 && ei >= 0 && vi < len(g.Params) && ei < len(g.Params) {
+										check(g.Params[vi], g.Params[ei], depth+1)
+										continue
+									}
+								}
 							case *ssa.Return:
 								carries := false
 								for _, rv := range x.Results {
@@ -98,6 +117,21 @@ var ruleErrFirst = &Rule{
 									continue
 								}
 							case *ssa.Phi:
+								// every way in that carries the value knows the error to be nil
+								// (the start of a loop over a range the call returned)
+								direct := true
+								for k, e := range x.Edges {
+									if e != v {
+										continue
+									}
+									pred := x.Block().Preds[k]
+									if isNil, _ := nilFact(edgeFacts(pred, succIndex(pred, x.Block())), ev); !isNil {
+										direct = false
+									}
+								}
+								if direct {
+									continue
+								}
 								// the error merged beside it, edge for edge
 								var pe *ssa.Phi
 								for _, ins2 := range x.Block().Instrs {
